@@ -533,6 +533,7 @@ def run(ctx):
     ctx.attempt(check_tables, ctx, db)
     ctx.attempt(check_enum_tables, ctx, db)
     ctx.attempt(check_units, ctx, db)
+    ctx.attempt(C03.check_units_arm, ctx, db)      # unit, precision, scale factor and default tolerance restored from UNITS
     ctx.attempt(check_offsets, ctx, db)
     ctx.attempt(check_aref, ctx, db)
     ctx.attempt(C03.check_xy_continuation, ctx, db)# a boundary split over several XY records re-loads completely
